@@ -5,9 +5,18 @@
     sd.scall <msg hex> <k1,k2,…>     the strict reference decoder for signcryption
         with ALL recipients' keys in header order (`b:<box secret>` | `s:<symmetric key>`),
         Model/SpecDecodeAll.lean `signcryptionAll`  →  ok plaintext=… sender=… recipients=… | reject <why>
+
+    arm.sc.seal <sender> <boxes> <syms> <eph> <src> <brand> <pt>
+        `SigncryptArmor62Seal` with scripted randomness (Model/Armored.lean
+        `Signcrypt.sealArmor62Rand`: the frame type is `Signcrypt.armorType`)
+        →  ok <hex of the armored text> reads=<n> | err <class>
+    arm.sc.open <secrets> <resolver> <text hex>
+        `Dearmor62SigncryptOpen` (`Signcrypt.dearmor62Open`), standard keyring
+        →  ok sender=<hex|anon> pt=<hex> brand=<hex> | err <class> | unmodelled
 -/
 import Driver.Util
 import Saltpack.Model.SpecDecodeAll
+import Saltpack.Model.Armored
 
 open Saltpack
 
@@ -30,6 +39,23 @@ def handle (toks : List String) : Option String :=
     match ofHex msg, (if ks = "-" then some [] else (ks.splitOn ",").mapM parseKey) with
     | some m, some keys => some (showR (SpecDecode.signcryptionAll RealPrims m keys))
     | _, _ => none
+  | ["arm.sc.seal", sender, boxes, syms, eph, src, brand, pt] =>
+    match mkSender sender, mkSRecips boxes, mkSRecips syms, mkEph eph, mkSource src, ofHex brand, ofHex pt with
+    | some sender, some boxes, some syms, some eph, some src, some brand, some pt =>
+      some (showSealRand (Signcrypt.sealArmor62Rand RealPrims blockSize sender boxes syms eph src pt brand) src.length)
+    | _, _, _, _, _, _, _ => some bad
+  | ["arm.sc.open", secrets, resolver, text] =>
+    match hexList secrets, mkResolver resolver, ofHex text with
+    | some secrets, some res, some text =>
+      match mkKeyring secrets "std" "std" "std" "std" with
+      | none => some bad
+      | some kr =>
+        match Signcrypt.dearmor62Open RealPrims kr res text with
+        | .unmodelled _ => some "unmodelled"
+        | .ok (.error e) => some s!"err {showErr e}"
+        | .ok (.ok (snd, pt, brand)) =>
+          some s!"ok sender={match snd with | some k => toHex k | none => "anon"} pt={toHex pt} brand={toHex brand}"
+    | _, _, _ => some bad
   | _ => none
 
 end DriverExtG
